@@ -675,6 +675,23 @@ def _globals(run, P):
                             d = dotted(x.func.value)
                             if d and d.startswith("self.") and d.count(".") == 1:
                                 mutated.append((meth, x))
+            for meth_, x_ in mutated:
+                # a table of earlier results whose entries are checked before they are used: the
+                # branch taken on a hit can fall through to the computation again.  Whether the
+                # check makes a hit equivalent to computing afresh is not read.
+                tg_ = x_.targets if isinstance(x_, ast.Assign) else []
+                tbls = {dotted(t.value) for t in tg_ if isinstance(t, ast.Subscript) and dotted(t.value)}
+                for tb_ in tbls:
+                    for if_ in ast.walk(meth_.node):
+                        if isinstance(if_, ast.If) and isinstance(if_.test, ast.Compare) \
+                                and len(if_.test.ops) == 1 and isinstance(if_.test.ops[0], ast.In) \
+                                and dotted(if_.test.comparators[0]) == tb_:
+                            from ..engine.srcmodel import _always_leaves
+                            if not _always_leaves(if_.body) and any(
+                                    isinstance(b_, ast.Break) for b_ in ast.walk(if_)):
+                                raise AnalysisError(
+                                    f"{c.name}.{meth_.name}: entries of {tb_} are checked before use (a hit "
+                                    f"can fall through to the computation); not decided")
             n += 1
             run.ob("C15.global", mutated[0][0] if mutated else c, mutated[0][1] if mutated else None,
                    not mutated,
